@@ -699,9 +699,10 @@ pub fn gen_sequence(rng: &mut Rng, profile: Profile, max_len: usize) -> (Vec<Op>
             });
             let nfonts = g.rng.range_usize(0, 3);
             for f in 0..nfonts {
+                let checksum = g.rng.next_u32();
                 g.push(Op::DefineFont {
                     number: f as u32,
-                    checksum: g.rng.next_u32(),
+                    checksum,
                     at_size: 655360,
                     design_size: 655360,
                     area: String::new(),
@@ -724,19 +725,22 @@ pub fn gen_sequence(rng: &mut Rng, profile: Profile, max_len: usize) -> (Vec<Op>
                 }
                 g.push(Op::EndPage);
             }
+            let (fbp, lh, lw) = (g.rng.range_i32(-1, 100000), g.rng.next_u32() >> 4, g.rng.next_u32() >> 4);
+            let (depth, pages) = (g.t.stats.max_depth as u16, g.t.stats.pages as u16);
             g.push(Op::BeginPostamble {
-                final_begin_page: g.rng.range_i32(-1, 100000),
+                final_begin_page: fbp,
                 unit_numerator: 25400000,
                 unit_denominator: 473628672,
                 magnification: 1000,
-                largest_height: g.rng.next_u32() >> 4,
-                largest_width: g.rng.next_u32() >> 4,
-                max_stack_depth: g.t.stats.max_depth as u16,
-                num_pages: g.t.stats.pages as u16,
+                largest_height: lh,
+                largest_width: lw,
+                max_stack_depth: depth,
+                num_pages: pages,
             });
             let n223 = g.rng.range_usize(4, 7);
+            let pp = g.rng.range_i32(0, 100000);
             g.push(Op::EndPostamble {
-                postamble: g.rng.range_i32(0, 100000),
+                postamble: pp,
                 dvi_format: 2,
                 num_223_bytes: n223,
             });
